@@ -34,7 +34,7 @@ def outcome(r):
     out_len = 0
     for (t, a, arg) in r.script:
         if a == "net":
-            if arg in ("blackout", "lossy", "noping"):
+            if arg in ("blackout", "lossy", "noping", "firstlost"):
                 mode = "bad"
                 if arg == "blackout" and out_from < 0:
                     # was the manager CONNECTED when the blackout began?
@@ -68,14 +68,16 @@ def outcome(r):
     t_nf = max([e["t"] for e in r.log if e["k"] == "deliver" and e["ev"] == "SPA_NOT_FOUND"], default=None)
     if t_nf is not None:
         t_ls = max([e["t"] for e in r.log if e["k"] == "deliver" and e["ev"] == "LOCATING_STARTED" and e["t"] <= t_nf], default=0)
+        # (unreachable = nothing can come back at all: a blackout or an RF-error phase; under partial loss - some
+        # datagrams lost, pings lost, the first datagram of an endpoint lost - a discovery's repeated hellos get through)
         bad, m = False, "ok"
         for (t, a, arg) in sorted(r.script, key=lambda x: x[0]):
             if a != "net":
                 continue
             tt = int(t * 1000)
             if tt <= t_ls:
-                m = "bad" if arg in ("blackout", "lossy", "rferr", "noping") else "ok"
-            elif tt <= t_nf and arg in ("blackout", "lossy", "rferr", "noping"):
+                m = "bad" if arg in ("blackout", "rferr") else "ok"
+            elif tt <= t_nf and arg in ("blackout", "rferr"):
                 bad = True
         nf_reach = "spa-unreachable" if (bad or m == "bad") else "spa-reachable"
     return {"scenario": r.name, "nf_discovery": nf_reach, "healthy_from": healthy_from, "connected_at": connected_at, "bound": heal_b,
@@ -99,7 +101,7 @@ def run(ctx):
         ev.add_tlc("the same without the ERROR_SPA_NOT_FOUND excuse: the stated property is refuted at design level (known finding D9)", rc)
         if "LHeals" not in rc.violated:
             raise env.MachineryError("liveness control (NOT_FOUND terminal) was not refuted")
-    runs = run_scenarios(rng, ctx.quick, which=lambda n: not n.startswith(("susp", "sockfail", "noid:idle")))
+    runs = run_scenarios(rng, ctx.quick, which=lambda n: not n.startswith(("susp", "sockfail", "noid:idle", "exit-")))
     pairs = validate_runs(ctx, runs, "c09")
     report(ctx, pairs)
     recs = [outcome(r_) for r_ in runs]
